@@ -82,6 +82,11 @@ impl EventSource for UnixRecvFrom<'_> {
                 .get_selector()
                 .add_io_timer(self.io_data, dur);
         }
+        // register the cancel io data before the coroutine is published: afterwards it
+        // can be resumed and block somewhere else, a registration done then would be
+        // stale and make a cancel wake whoever waits on this socket at that time
+        #[cfg(feature = "io_cancel")]
+        cancel.set_io(io_data.clone());
         io_data.co.store(co);
 
         // there is event, re-run the coroutine
@@ -90,14 +95,11 @@ impl EventSource for UnixRecvFrom<'_> {
             return io_data.fast_schedule();
         }
 
+        // re-check the cancel status. a canceller that came before the coroutine was
+        // stored has consumed the registration and found nothing: wake it up here
         #[cfg(feature = "io_cancel")]
-        {
-            // register the cancel io data
-            cancel.set_io(io_data.clone());
-            // re-check the cancel status
-            if cancel.is_canceled() {
-                unsafe { cancel.cancel() };
-            }
+        if cancel.is_canceled() {
+            io_data.schedule();
         }
     }
 }
